@@ -42,12 +42,14 @@ def value_matrix(side):
     return vals
 
 
-def gen_side(rng, prefix, max_dims=3, max_size=4, min_dims=1, size_bias=True, uniform=False):
+def gen_side(rng, prefix, max_dims=3, max_size=4, min_dims=1, size_bias=True, uniform=False, long_prob=0.0):
     k = rng.randint(min_dims, max_dims)
     pool = [s for s in (1, 1, 2, 2, 2, 3, 3, 4, 5) if s <= max_size] if size_bias else list(range(1, max_size + 1))
     sizes = [rng.choice(pool) for _ in range(k)]
     if rng.random() < 0.15 and k > 1:   # equal sizes on purpose
         sizes = [sizes[0]] * k
+    if long_prob and rng.random() < long_prob:      # one long dimension (float ramps, strides, hyperslabs ...)
+        sizes[rng.randrange(k)] = rng.choice([7, 7, 8, 9, 11, 13, 16, 25, 49])
     rate = list(range(k))
     rng.shuffle(rate)
     labels = [prefix + LETTERS[d] for d in range(k)]
